@@ -15,7 +15,9 @@ import (
 	"google.golang.org/protobuf/types/known/anypb"
 )
 
-var verifChunk = []int{1, 32, 64, 85}
+// segment sizes: the transports' thresholds, a segment that exactly fills the handler's read buffer,
+// and one that is larger than it (a burst: the rest stays queued on the socket)
+var verifChunk = []int{1, 32, 64, 85, 4096, 5000}
 
 // verifGeo: a GeoIP database that knows the client's country.
 type verifGeo struct{}
@@ -100,7 +102,22 @@ func VerifC03Unauthenticated() {
 	}
 	conn := &cj.VerifScriptConn{Name: "probe", DeadlineErr: -1}
 	for i := 0; i < nchunks; i++ {
-		conn.Reads = append(conn.Reads, cj.VerifRead{N: verifChunk[verifnd.Choose("size", len(verifChunk))]})
+		sizes := verifChunk
+		if i > 0 && !verifnd.Thorough() {
+			sizes = verifChunk[:4] // bound (quick): buffer-filling and larger segments as the first segment only
+		}
+		if nregs == 2 && !verifnd.Thorough() {
+			sizes = []int{1, 85, 5000} // bound (quick): three segment sizes against two registrations
+		}
+		n := sizes[verifnd.Choose("size", len(sizes))]
+		conn.Reads = append(conn.Reads, cj.VerifRead{N: n})
+		var fixed []byte
+		if n > 128 {
+			// bound: of a large segment the first 128 bytes are arbitrary, the rest is zero (no
+			// enabled transport looks beyond its tag position, at most 85 bytes into the stream)
+			fixed = append(verifnd.Bytes("probe.head", 128), make([]byte, n-128)...)
+		}
+		conn.Data = append(conn.Data, fixed)
 	}
 	peerEnds := verifnd.Choose("then", 3) // silence, EOF, reset
 	switch peerEnds {
@@ -124,6 +141,7 @@ func VerifC03Unauthenticated() {
 	d := conn.Deadline.Sub(start)
 	verifnd.Assert(d >= 5*time.Second && d < 10*time.Second, "C03.deadline-5-to-10-seconds-after-accept")
 	verifnd.Assert(peerEnds != 0 || !end.Before(conn.Deadline), "C03.no-return-before-the-deadline-unless-the-peer-ended")
+	verifnd.Assert(peerEnds != 0 || end.Sub(start) >= 5*time.Second, "C03.no-return-within-five-seconds-unless-the-peer-ended")
 	verifnd.Assert(conn.Rpos == len(conn.Reads), "C03.keeps-reading-what-the-peer-sends")
 	if peerEnds == 0 {
 		verifnd.Assert(conn.TimedOut, "C03.reads-until-the-deadline")
